@@ -22,6 +22,8 @@ def conds_muxOptions_writeAll : List String := [
 
 def conds_streamGRPC_RecvMsg : List String := [
    "func (*streamGRPC) RecvMsg(m interface{}) error",
+   "if err := s.begin(); err != nil",
+   "return err",
    "defer s.wg.Done()",
    "if err := s.isDone(); err != nil",
    "return err",
@@ -52,6 +54,8 @@ def conds_streamGRPC_RecvMsg : List String := [
 
 def conds_streamGRPC_SendMsg : List String := [
    "func (*streamGRPC) SendMsg(m interface{}) error",
+   "if err := s.begin(); err != nil",
+   "return err",
    "defer s.wg.Done()",
    "if err := s.isDone(); err != nil",
    "return err",
